@@ -186,7 +186,7 @@ func drawEnv(rt *rapid.T, u use) *env {
 	e := &env{pat: []int{1}}
 	var sb strings.Builder
 	if u&uXS != 0 {
-		e.xs = kit.IntSlice(maxLen()).Draw(rt, "xs")
+		e.xs = kit.IntSliceWide(maxLen()).Draw(rt, "xs")
 		fmt.Fprintf(&sb, "xs=%v ", e.xs)
 	}
 	if u&uYS != 0 {
@@ -311,7 +311,7 @@ func handList(xs []int, i int) fp.List[int] {
 func (e *env) it(xs []int) fp.Iterator[int] { return mkIter(e.ik, xs) }
 func (e *env) li(xs []int) fp.List[int]     { return mkList(e.lk, xs) }
 
-const ruleBase = "inputs drawn by rapid: int slices xs (len 0..8 quick / 0..14 thorough, values -3..8, empty and singleton included), table functions/predicates over x mod k, small counts, construction kind of the source; every callback carries a fuel of 64*(n+1) calls; oracle: plain Go slice loop written in the harness; non-trivial iff total input length >= 2; distinct by printed inputs. "
+const ruleBase = "inputs drawn by rapid: int slices xs (len 0..8 quick / 0..14 thorough, in a quarter of the cases 9..40 or 41..300 - nothing in the code bounds the length; values -3..8, empty and singleton included), table functions/predicates over x mod k, small counts, construction kind of the source; every callback carries a fuel of 64*(n+1) calls; oracle: plain Go slice loop written in the harness; non-trivial iff total input length >= 2; distinct by printed inputs. "
 
 // comb runs one per-function sub-check: lib computes with the library (inside
 // Guard, callbacks fuelled), ref computes on plain slices.
